@@ -72,9 +72,10 @@ type IfaceV struct {
 }
 
 type FuncV struct {
-	Fn    *ssa.Function
-	Env   []Value
-	Built *ssa.Builtin
+	Fn     *ssa.Function
+	Env    []Value
+	Built  *ssa.Builtin
+	native func(th *Thread) Value
 }
 
 type TupleV []Value
